@@ -217,3 +217,37 @@ func VerifC12_HookErrors() {
 type hooksError struct{}
 
 func (hooksError) Error() string { return "connection refused" }
+
+// VerifC12_TwoFaults (thorough): two faults of symbolic kinds at two symbolic
+// positions of one sync, then fault-free syncs: no panic, the work item is
+// requeued or forgotten (never dropped), and the cluster converges to the
+// fault-free state and goes quiet.
+func VerifC12_TwoFaults() {
+	s := verifC12Setup(nil)
+	w := s.w
+	const nreq = 5
+	p1 := rt.Choice("fault1-at", nreq)
+	p2 := rt.Choice("fault2-at", nreq)
+	rt.Assume(p1 < p2)
+	k1 := 1 + rt.Choice("fault1-kind", env.NumFaultKinds-2)
+	k2 := 1 + rt.Choice("fault2-kind", env.NumFaultKinds-2)
+	w.Srv.ArmFault(p1, k1, "", true)
+	w.Srv.FaultAt2, w.Srv.FaultKind2 = p2, k2
+	s.pc.Queue.Items = append(s.pc.Queue.Items, "ns/p")
+	more := s.pc.processNextWorkItem()
+	rt.Assert(more, "two-faults/worker-stops")
+	rt.Assert(s.pc.Queue.Count("add-rate-limited")+s.pc.Queue.Count("forget") == 1, "two-faults/work-item-neither-requeued-nor-forgotten")
+	w.Srv.DisarmFault()
+	for i := 0; i < 3; i++ {
+		s.pc.SnapshotFromStore()
+		s.pc.Queue.Items = append(s.pc.Queue.Items, "ns/p")
+		s.pc.processNextWorkItem()
+	}
+	verifC12Converged(w, "after-two-faults")
+	w.Srv.ResetLog()
+	s.pc.SnapshotFromStore()
+	s.pc.Queue.Items = append(s.pc.Queue.Items, "ns/p")
+	s.pc.processNextWorkItem()
+	rt.Assert(len(w.Srv.Writes()) == 0, "after-two-faults/not-quiescent")
+	rt.Cover("two-faults")
+}
